@@ -169,6 +169,7 @@ def u_mingenset_solve():
             self.weight_type = float
             self.genset_vars = "GV"
             self.solver = None
+            self.partition_constraints = None
 
         def _create_solver(self, k):
             self.solver = SubSolver(k)
@@ -191,10 +192,20 @@ def u_mingenset_solve():
 
     def sorted_(x):
         return "SORTED"
-    loops = {0: dict(inv=inv, prop={"every-smaller-k-was-proven-infeasible": P, "not-yet-marked-solved": P},
+    def on_entry(ns, it):
+        # range clause (C15): the search starts at the lower bound and reaches len(numbers)+1, a size for which a generating set always exists
+        from pyvc.heap import SymRange
+        me = ns["self"]
+        c = core.ctx()
+        if isinstance(it, SymRange):
+            c.prove("range:search-starts-at-the-lower-bound", lift(it.lo) == me.lowerbound.t, prop="C15", kind="pre")
+            c.prove("range:search-reaches-len(numbers)+1", lift(it.hi) >= me.initial_numbers.n + 2, prop="C15", kind="pre")
+        else:
+            c.prove("range:search-range-is-symbolic", False, kind="pre")
+    loops = {0: dict(inv=inv, on_entry=on_entry, prop={"every-smaller-k-was-proven-infeasible": P, "not-yet-marked-solved": P},
                      modifies=[(("self", "solve_statistics"), lambda old: {}), (("self", "solver"), lambda old: old)],
                      keep=("genset_sol",))}
-    return Unit("flowpaths/mingenset.py", "MinGenSet.solve", h, globs=dict(utils=UtilsStub, time=TimeStub, sorted=sorted_, sw=_sw_mod()), loops=loops, props=[P],
+    return Unit("flowpaths/mingenset.py", "MinGenSet.solve", h, globs=dict(utils=UtilsStub, time=TimeStub, sorted=sorted_, sw=_sw_mod()), loops=loops, props=[P, "C15"],
                 assumptions=[A_SOLVER], callee_contracts=["MinGenSet._create_solver (installs a fresh solver for k)", "SolverWrapper.optimize/get_model_status/get_values"])
 
 
